@@ -1,9 +1,87 @@
-(* C02 -- every selected test runs exactly once per repetition; selection follows the filters; reverse/shuffle only permute.
-   Only statements; every proof is `exact <lemma>` into C02_Proofs.v. *)
+(* C02 -- every selected test runs exactly once per repetition; selection follows the filters; reversing and shuffling
+   only permute the order.  Only statements; every proof is `exact <lemma>` into C02_Proofs.v. *)
 From Coq Require Import NArith Arith Bool List Permutation.
 From CppUVerif Require Import lib.Str C02_Model C02_Proofs.
 Import ListNotations.
+Local Open Scope N_scope.
 
-Theorem C02_registry_is_reverse_registration : forall ts, registry_of ts = rev ts.
-Proof. exact registry_of_rev. Qed.
-Print Assumptions C02_registry_is_reverse_registration.
+(* the run of every valid scenario satisfies the property's oracle (which is evaluated on the implementation's observation too) *)
+Theorem C02_run_meets_spec : forall s, valid s = true -> spec s (run s) = true.
+Proof. exact run_meets_spec. Qed.
+Print Assumptions C02_run_meets_spec.
+
+(* runAllTests over ANY list of tests (any order, any filters): tests = length, tests = run + ignored + filtered, and what each counts *)
+Theorem C02_counts_identity : forall gf nf ri l,
+  let k := snd (run_all_tests gf nf ri l) in
+  c_tests k = N.of_nat (length l) /\ c_tests k = c_run k + c_ign k + c_filt k
+  /\ c_run k = count_if (m_exec gf nf ri) l /\ c_ign k = count_if (m_cign gf nf ri) l
+  /\ c_filt k = count_if (fun t => negb (should_run gf nf t)) l.
+Proof. exact counts_identity. Qed.
+Print Assumptions C02_counts_identity.
+
+(* every repetition of every valid scenario: one observation per repetition, counters identity, order = permutation of the registered tests *)
+Theorem C02_counts_every_repetition : forall s, valid s = true ->
+  length (o_reps (run s)) = s_repeat s /\
+  forall r, In r (o_reps (run s)) ->
+    c_tests (r_cnt r) = N.of_nat (length (s_tests s)) /\ c_tests (r_cnt r) = c_run (r_cnt r) + c_ign (r_cnt r) + c_filt (r_cnt r)
+    /\ Permutation (r_order r) (seq 0 (length (s_tests s))).
+Proof. exact run_counts_identity. Qed.
+Print Assumptions C02_counts_every_repetition.
+
+(* for any order in which every test occurs once: a selected test is started exactly once, its body runs exactly once unless it is
+   an ignored test counted as ignored; unselected tests and foreign ids never appear *)
+Theorem C02_exactly_once : forall gf nf ri l, NoDup (map t_id l) ->
+  let w := fst (run_all_tests gf nf ri l) in
+  (forall t, In t l -> occurrences (ETestStarted (t_id t)) w = b2n (should_run gf nf t)
+                       /\ occurrences (EBody (t_id t)) w = b2n (m_exec gf nf ri t))
+  /\ (forall i, ~ In i (map t_id l) -> occurrences (ETestStarted i) w = 0 /\ occurrences (EBody i) w = 0).
+Proof. exact exactly_once. Qed.
+Print Assumptions C02_exactly_once.
+
+(* selection, declaratively: a test runs iff its group is accepted by some group filter (when any are given) and its name by some
+   name filter (when any are given); a filter accepts by substring (exists pre post), by equality, or by the negation of either *)
+Theorem C02_selection_iff : forall gf nf t,
+  forallb filter_ok gf = true -> forallb filter_ok nf = true -> test_ok t = true ->
+  (should_run gf nf t = true <-> Accepted gf (t_group t) /\ Accepted nf (t_name t)).
+Proof. exact selection_iff. Qed.
+Print Assumptions C02_selection_iff.
+
+(* the code's matcher (C13 StrStr / StrCmp on NUL-terminated buffers) is the textbook one on strings without NUL *)
+Theorem C02_filter_match_textbook : forall f x, filter_ok f = true -> nonul x = true -> filter_match f x = accepts f x.
+Proof. exact filter_match_accepts. Qed.
+Print Assumptions C02_filter_match_textbook.
+
+(* Fisher-Yates as written: for EVERY rand stream, seed and list the array is never indexed out of range (result is Some) and the
+   result is a permutation: same length, nothing duplicated, nothing lost; count-1 values are drawn *)
+Theorem C02_shuffle_perm : forall (A : Type) seed rs (a : list A),
+  exists l seeds drawn, shuffle seed rs a = Some (l, seeds, drawn)
+    /\ Permutation l a /\ length l = length a /\ (NoDup a -> NoDup l) /\ length drawn = (length a - 1)%nat.
+Proof. exact @shuffle_perm. Qed.
+Print Assumptions C02_shuffle_perm.
+
+Theorem C02_swap_perm : forall (A : Type) (a : list A) i1 i2 a', swap a i1 i2 = Some a' -> Permutation a' a /\ length a' = length a.
+Proof. exact @swap_perm. Qed.
+Print Assumptions C02_swap_perm.
+
+Theorem C02_reverse_rev : forall (A : Type) (a : list A), reverse a = Some (rev a).
+Proof. exact @reverse_ok. Qed.
+Print Assumptions C02_reverse_rev.
+
+Theorem C02_relink_id : forall (A : Type) (a : list A), relink a = Some a.
+Proof. exact @relink_ok. Qed.
+Print Assumptions C02_relink_id.
+
+(* group start/end notifications are balanced for ANY order of tests (so also after shuffling) *)
+Theorem C02_groups_balanced : forall gf nf ri l n, (forall t, In t l -> (t_id t < n)%nat) ->
+  exists mid, fst (run_all_tests gf nf ri l) = ETestsStarted :: mid ++ [ETestsEnded] /\ Groups mid.
+Proof. exact groups_balanced_grammar. Qed.
+Print Assumptions C02_groups_balanced.
+
+(* what the oracle's automaton and permutation test mean *)
+Theorem C02_word_shape_sound : forall n w, word_shape n w = true -> exists mid, w = ETestsStarted :: mid ++ [ETestsEnded] /\ Groups mid.
+Proof. exact word_shape_sound. Qed.
+Print Assumptions C02_word_shape_sound.
+
+Theorem C02_is_perm_sound : forall n ord, is_perm_ids n ord = true -> Permutation ord (seq 0 n).
+Proof. exact is_perm_ids_sound. Qed.
+Print Assumptions C02_is_perm_sound.
